@@ -122,7 +122,7 @@ def counts_for(np, tier, coll):
         big2 = _non_multiple(max(4099 * 8 // np, np + 2), np)
     cs = {0, 1, 2, max(np - 1, 0), np, np + 1, big1, big2}
     if tier == "thorough":
-        cs |= {3, 7, 16, 31, _non_multiple(100, np), _non_multiple(1025, np), 2048 if coll not in PER_RANK_BUFFERS else 128}
+        cs |= {3, 7, 31, _non_multiple(1025, np), 2048 if coll not in PER_RANK_BUFFERS else 128}
     return sorted(cs)
 
 
@@ -133,11 +133,39 @@ def huge_count(np, coll):
     return _non_multiple(h, np)
 
 
-def gen_cases(call, variant, np, rng, tier):
+QUICK_CASES = 96        # cases of one call in a quick-tier run (stratified sample of the full list)
+THOROUGH_CASES = 600
+
+
+def _stratified(cases, limit, rng):
+    """At most `limit` cases, every (count, mode, pattern) stratum of the full list represented as evenly as possible."""
+    if len(cases) <= limit:
+        return cases
+    buckets = {}
+    for c in cases:
+        buckets.setdefault((c["c"], c["mode"], c["pat"]), []).append(c)
+    keys = sorted(buckets)
+    rng.shuffle(keys)
+    for k in keys:
+        rng.shuffle(buckets[k])
+    out = []
+    while len(out) < limit:
+        took = False
+        for k in keys:
+            if buckets[k] and len(out) < limit:
+                out.append(buckets[k].pop())
+                took = True
+        if not took:
+            break
+    return out
+
+
+def gen_cases(call, variant, np, rng, tier, limit=None):
     """Cases of one call (`call` is the MPI collective; variant 'blocking' or 'nbc') for a communicator of np ranks.
 
     Two families so that every pair of features meets: (count x datatype/operator x mode) with roots cycling, and
-    (root x count x mode) with datatypes/operators cycling. The v-collectives add the six count/displacement patterns."""
+    (root x count x mode) with datatypes/operators cycling. The v-collectives add the six count/displacement patterns.
+    The quick tier runs a stratified sample (every count x mode x pattern present) of `limit` cases drawn by the seed."""
     cases = []
     modes = MODES[call] if variant == "blocking" else ["nb", "nb2"]
     if call == "barrier":
@@ -184,8 +212,48 @@ def gen_cases(call, variant, np, rng, tier):
         for root in sorted({roots[0], roots[-1]}):
             for feat in feats[:2]:
                 add("b", root, 0, h, feat)
+    if limit is None and tier == "quick":
+        limit = QUICK_CASES
+    if limit:
+        cases = _stratified(cases, limit, rng)
     rng.shuffle(cases)
     return _number(cases)
+
+
+def parse_case(line, idx=None):
+    """Inverse of case_line; the leading index may be omitted (then idx is used) and vseed/late default to 12345/-1."""
+    f = line.split()
+    if not f[0].lstrip("-").isdigit():
+        f = [str(idx if idx is not None else 0)] + f
+    if len(f) == 8:
+        f += ["12345", "-1"]
+    return dict(idx=int(f[0]), coll=f[1], mode=f[2], root=int(f[3]), pat=int(f[4]), c=int(f[5]), dt=f[6], op=f[7],
+                vseed=int(f[8]), late=int(f[9]))
+
+
+# --------------------------------------------------------------------------------------------------------------------
+# The matrix. A configuration is (communicator size, placement of the ranks on the hosts).
+REQUIRED_NP = (1, 2, 3, 4, 5, 7, 8, 12, 16)
+
+
+def thorough_configs():
+    """Every size 1..17 with one rank per host, and the other placements on a subset of sizes."""
+    out = [(np, "flat") for np in range(1, 18)]
+    out += [(np, "blk2") for np in (2, 4, 6, 7, 8, 12, 16)]
+    out += [(np, "blk4") for np in (5, 8, 12, 16)]
+    out += [(np, "cyc2") for np in (3, 4, 5, 8)]
+    out += [(np, "cyc3") for np in (6, 7, 9)]
+    out += [(np, "rev") for np in (2, 3, 5, 8)]
+    return out
+
+
+def quick_configs(rng):
+    """Two configurations of the thorough matrix drawn by the seed: one with a power-of-two size (1 included) and one
+    without, at most 8 ranks so that a quick run stays short; sizes 12 and 16 are visited by the thorough tier."""
+    cfgs = [c for c in thorough_configs() if c[0] <= 8]
+    p2 = [c for c in cfgs if c[0] & (c[0] - 1) == 0]
+    np2 = [c for c in cfgs if c[0] & (c[0] - 1) != 0]
+    return [rng.choice(p2), rng.choice(np2)]
 
 
 def _number(cases):
